@@ -2,6 +2,7 @@ package c03
 
 import (
 	"crypto"
+	"crypto/ecdsa"
 	"crypto/tls"
 	"fmt"
 	"strings"
@@ -9,6 +10,8 @@ import (
 	"time"
 
 	dtls "github.com/pion/dtls/v3"
+	"github.com/pion/dtls/v3/pkg/crypto/hash"
+	"github.com/pion/dtls/v3/pkg/crypto/signature"
 	"github.com/pion/dtls/v3/pkg/protocol/handshake"
 	"github.com/pion/dtls/v3/zzverif/checks"
 	"github.com/pion/dtls/v3/zzverif/run"
@@ -114,6 +117,15 @@ func scenarios(p *world.PKI) []scen {
 				}, nil)
 				add("signature-corrupted", mustFail, func(c, s *world.Cfg) { s.Cert = world.WithSigner(cr.cert, world.FlipSigner{Signer: signerOf(cr.cert)}) }, nil)
 				add("signature-over-other-data", mustFail, func(c, s *world.Cfg) { s.Cert = world.WithSigner(cr.cert, world.StaleSigner{Signer: signerOf(cr.cert)}) }, nil)
+				if !v13 && cr.name == "ecdsa" {
+					// The attacker knows only the victim's certificate (public key): it claims a scheme without
+					// prehash (Ed25519) for the ECDSA certificate and sends a signature forged for the empty digest.
+					pub := cr.cert.Leaf.PublicKey.(*ecdsa.PublicKey)
+					forged := func() []byte { b, _ := world.ForgeZeroDigestECDSA(pub); return b }
+					add("scheme-confusion-forgery(public-key-only)", mustFail, func(c, s *world.Cfg) {
+						s.Cert = world.WithSigner(cr.cert, world.PublicOnlySigner{Pub: pub})
+					}, world.ClaimScheme(srvFlight, hash.Ed25519, signature.Ed25519, forged))
+				}
 				if !v13 {
 					add("no-certificate-message", mustFail, nil, world.DropMessages(srvFlight, handshake.TypeCertificate))
 					add("no-server-key-exchange", mustFail, nil, world.DropMessages(srvFlight, handshake.TypeServerKeyExchange))
@@ -213,6 +225,13 @@ func scenarios(p *world.PKI) []scen {
 						c.Cert = world.WithSigner(cr.cert, world.FlipSigner{Signer: signerOf(cr.cert)})
 					}
 				}, nil)
+				if !v13 && cr.name == "ecdsa" {
+					pub := cr.cert.Leaf.PublicKey.(*ecdsa.PublicKey)
+					forged := func() []byte { b, _ := world.ForgeZeroDigestECDSA(pub); return b }
+					add("scheme-confusion-forgery(public-key-only)", pop, func(c, s *world.Cfg) {
+						c.Cert = world.WithSigner(cr.cert, world.PublicOnlySigner{Pub: pub})
+					}, world.ClaimScheme(cliFlight, hash.Ed25519, signature.Ed25519, forged))
+				}
 				add("certificateverify-corrupted", pop, func(c, s *world.Cfg) { c.Cert = world.WithSigner(cr.cert, world.FlipSigner{Signer: signerOf(cr.cert)}) }, nil)
 				add("certificateverify-over-stale-transcript", pop, func(c, s *world.Cfg) { c.Cert = world.WithSigner(cr.cert, world.StaleSigner{Signer: signerOf(cr.cert)}) }, nil)
 			}
